@@ -497,10 +497,18 @@ func TestTableRuntime(t *testing.T) {
 	sem := make(chan struct{}, 24)
 	k := 0
 	prelude := "    let zero = 0;\n    let lst = [1];\n    let nothing: ?int = none;\n"
+	branchRounds := 0
 	for _, f := range failures {
 		for depth := 0; depth <= 3; depth++ {
 			for _, inModule := range []bool{false, true} {
-				for _, unicodeBefore := range []bool{false, true} {
+				for _, unicodeBefore := range []bool{false, true, true} {
+					// the third round puts branching statements in front of the site (compiled code before the
+					// failing instruction: its position must not depend on what was compiled before it)
+					branchesBefore := false
+					if unicodeBefore {
+						branchRounds++
+						branchesBefore = branchRounds%2 == 0
+					}
 					for _, backend := range []string{"vm", "tree"} {
 						for _, mode := range []string{"caught", "uncaught"} {
 							if f.mode == "fatal" && mode == "caught" {
@@ -512,7 +520,7 @@ func TestTableRuntime(t *testing.T) {
 							}
 							wg.Add(1)
 							sem <- struct{}{}
-							go func(f failure, depth int, inModule, unicodeBefore bool, backend, mode string) {
+							go func(f failure, depth int, inModule, unicodeBefore, branchesBefore bool, backend, mode string) {
 								defer wg.Done()
 								defer func() { <-sem }()
 								var lib strings.Builder
@@ -529,7 +537,11 @@ func TestTableRuntime(t *testing.T) {
 								if f.tmpl != "" {
 									stmt = strings.Replace(f.tmpl, "SITE", f.site, 1)
 								}
-								fmt.Fprintf(&lib, "fn lvl0(x: int) -> int {\n%s        %s\n    println(\"UNREACHED\");\n    x\n}\n", prelude, stmt)
+								pre := prelude
+								if branchesBefore {
+									pre += "    if x > 100 { println(\"a\"); }\n    if x > 200 { println(\"b\"); }\n    match x { 1000 => { println(\"m\"); }, _ => {} }\n    if x > 300 { println(\"c\"); } else { }\n    for q in 0..2 { if q > x { break; } }\n"
+								}
+								fmt.Fprintf(&lib, "fn lvl0(x: int) -> int {\n%s        %s\n    println(\"UNREACHED\");\n    x\n}\n", pre, stmt)
 								for d := 1; d <= depth; d++ {
 									fmt.Fprintf(&lib, "fn lvl%d(x: int) -> int {\n    let a = x + 1;\n    lvl%d(a)\n}\n", d, d-1)
 								}
@@ -540,7 +552,7 @@ func TestTableRuntime(t *testing.T) {
 								} else {
 									mainFn = "fn main() {\n    println(entry(1));\n}\n"
 								}
-								rc := RuntimeCase{Entry: "main", Backend: backend, Site: f.site, Note: fmt.Sprintf("%s depth=%d module=%v unicode=%v", f.name, depth, inModule, unicodeBefore)}
+								rc := RuntimeCase{Entry: "main", Backend: backend, Site: f.site, Note: fmt.Sprintf("%s depth=%d module=%v unicode=%v branches-before=%v", f.name, depth, inModule, unicodeBefore, branchesBefore)}
 								rc.Mode = mode
 								if mode == "uncaught" && f.mode == "fatal" {
 									rc.Mode = "fatal"
@@ -557,7 +569,7 @@ func TestTableRuntime(t *testing.T) {
 								pk.Class("mode:" + rc.Mode)
 								pk.NonTrivial(rc.Note+backend+mode, map[string]any{"case": rc.Note, "backend": backend, "mode": rc.Mode})
 								col.Report(rc, checkRuntime(rc))
-							}(f, depth, inModule, unicodeBefore, backend, mode)
+							}(f, depth, inModule, unicodeBefore, branchesBefore, backend, mode)
 						}
 					}
 				}
